@@ -350,6 +350,7 @@ def handle (j : Json) : Json :=
       | .ok (.str g) => some g
       | _ => none
     Json.mkObj [("errs", strList (Semver.validateVersion (Semver.normalizeBuild (jstr j "linker")) given))]
+  | "normalizeBuild" => Json.mkObj [("ok", Semver.normalizeBuild (jstr j "linker"))]
   | "unquote" =>
     match GoQuote.unquote (jstr j "s").toList with
     | some v => Json.mkObj [("ok", String.ofList v)]
